@@ -115,9 +115,9 @@ func c02Base() []aTable {
 }
 
 type aEdit struct {
-	Desc   string
-	Apply  func(ts []aTable) []aTable
-	Expect []string // canonical changes
+	Desc                        string
+	Apply                       func(ts []aTable) []aTable
+	Expect                      []string // canonical changes
 	NoSQLite, OnlyNamedDialects bool
 	// BaseDefault: token of the default t3.c1 has in the base of this edit (0: none)
 	BaseDefault int
@@ -218,7 +218,11 @@ func c02Catalogue() []aEdit {
 			e.BaseDefault = a
 		}
 	}
-	add("add-pk", []string{"3:addPK"}, func(ts []aTable) []aTable { i := tIdx(ts, 3); ts[i].PK = &aIdx{Parts: []aPart{{Col: 1, Desc: false}}}; return ts })
+	add("add-pk", []string{"3:addPK"}, func(ts []aTable) []aTable {
+		i := tIdx(ts, 3)
+		ts[i].PK = &aIdx{Parts: []aPart{{Col: 1, Desc: false}}}
+		return ts
+	})
 	add("drop-pk", []string{"2:dropPK"}, func(ts []aTable) []aTable { i := tIdx(ts, 2); ts[i].PK = nil; return ts })
 	add("modify-pk-parts", []string{"2:modifyPK [2]"}, func(ts []aTable) []aTable {
 		i := tIdx(ts, 2)
